@@ -129,7 +129,7 @@ def cases_of(cells, tb, docs):
     return out
 
 
-STALL_S = 90   # no result for this long = the call did not return (typical cases take milliseconds)
+STALL_S = 60   # a single case alone without a result for this long = the call does not return (typical: milliseconds)
 
 
 def klass(case):
@@ -141,69 +141,95 @@ def klass(case):
     return "%s:%s" % (case.get("fam"), c.get("cls") or c.get("name") or c.get("k") or c.get("fence") or "")
 
 
+CHUNK = 20000  # cases per engine process (keeps start-up short, so the watchdog measures the call)
+
+
+def engine_once(ctx, vh, chunk, name, opts, stall):
+    """One engine process over `chunk`.  Returns (results, status) with status in
+    "done" | "hung" | "died:<rc>:<last stderr line>"."""
+    inp = ctx.write_ndjson(name + ".in.ndjson", chunk)
+    outp = os.path.join(ctx.workdir, name + ".out.ndjson")
+    if os.path.exists(outp):
+        os.unlink(outp)
+    cmd = [vh, "front", "--in", inp, "--out", outp, "--seed", str(ctx.seed)]
+    for k, v in (opts or {}).items():
+        cmd += ["--opt", "%s=%s" % (k, v)]
+    p = subprocess.Popen(cmd, cwd=ctx.workdir, stdout=subprocess.DEVNULL, stderr=subprocess.PIPE, text=True)
+    last_size, last_t, hung = -1, time.time(), False
+    while p.poll() is None:
+        time.sleep(0.2)
+        size = os.path.getsize(outp) if os.path.exists(outp) else 0
+        now = time.time()
+        if size != last_size:
+            last_size, last_t = size, now
+        elif now - last_t > stall:
+            p.kill()
+            hung = True
+            break
+    err = (p.communicate()[1] or "").strip().splitlines()
+    rc = p.returncode
+    res = []
+    if os.path.exists(outp):
+        for line in open(outp):
+            line = line.strip()
+            if line:
+                try:
+                    res.append(json.loads(line))
+                except ValueError:
+                    break   # a torn last line of a killed process
+    if hung:
+        return res, "hung"
+    if rc == 2:
+        raise verif.ToolError("engine vh-vmtable front reported a tool error: %s" % err[-1:])
+    if rc != 0:
+        return res, "died:%s:%s" % (rc, (err or ["?"])[-1])
+    return res, "done"
+
+
 def run_front(ctx, vh, cases, tag="front", opts=None):
-    """Run the front engine with a watchdog.  The engine flushes one result per case; if it dies
-    (stack overflow = abort) or stops producing results (the call does not return), the case it
-    was working on gets a failing result and the engine is restarted on the rest."""
+    """Run the front engine with a watchdog.  The engine flushes one result per case.  If the
+    process dies (stack overflow = abort) the case it was working on gets a failing result; if
+    it stops producing results the suspect case is run again *alone* and only if that run
+    stalls too (so neither start-up time nor machine load can raise the alarm) it is recorded
+    as a call that does not return.  The engine is then restarted on the rest."""
     results, start, part = [], 0, 0
     t0 = time.time()
     while start < len(cases):
-        chunk = cases[start:]
-        inp = ctx.write_ndjson("%s-%d.in.ndjson" % (tag, part), chunk)
-        outp = os.path.join(ctx.workdir, "%s-%d.out.ndjson" % (tag, part))
-        if os.path.exists(outp):
-            os.unlink(outp)
-        cmd = [vh, "front", "--in", inp, "--out", outp, "--seed", str(ctx.seed)]
-        for k, v in (opts or {}).items():
-            cmd += ["--opt", "%s=%s" % (k, v)]
-        p = subprocess.Popen(cmd, cwd=ctx.workdir, stdout=subprocess.DEVNULL, stderr=subprocess.PIPE, text=True)
-        last_size, last_t, hung = -1, time.time(), False
-        while p.poll() is None:
-            time.sleep(0.25)
-            size = os.path.getsize(outp) if os.path.exists(outp) else 0
-            now = time.time()
-            if size != last_size:
-                last_size, last_t = size, now
-            elif now - last_t > STALL_S:
-                p.kill()
-                hung = True
-                break
-        err = (p.communicate()[1] or "").strip().splitlines()
-        rc = p.returncode
-        res = []
-        if os.path.exists(outp):
-            for line in open(outp):
-                line = line.strip()
-                if line:
-                    try:
-                        res.append(json.loads(line))
-                    except ValueError:
-                        break   # a torn last line of a killed process
+        chunk = cases[start:start + CHUNK]
+        res, status = engine_once(ctx, vh, chunk, "%s-%d" % (tag, part), opts, 3 * STALL_S)
+        part += 1
         for r in res:
             r["i"] += start
             r["_in"] = cases[r["i"]]
         results += res
         done = len(res)
-        if not hung and rc == 2:
-            raise verif.ToolError("engine vh-vmtable front reported a tool error: %s" % err[-1:])
-        if hung or rc != 0:
-            case = cases[start + done]
-            short = {k: (v if k != "text" or len(v) < 2000 else v[:300] + "...") for k, v in case.items()}
-            deep = case.get("fam") == "nest" and case["cell"]["depth"] >= 4096
-            if hung:
-                key = "C27:no-return:" + klass(case)
-                msg = "no result after %d s: the front end did not return on this %d-byte text" % (STALL_S, len(case["text"]))
-            else:
-                key = "C27:abort:deep-nesting" if deep else "C27:abort:" + klass(case)
-                msg = "process aborted (status %s: %s) on this %d-byte text" % (rc, (err or ["?"])[-1], len(case["text"]))
-            results.append({"i": start + done, "ok": False, "step": -1, "key": key, "msg": msg,
-                            "obs": {"parse": "hang" if hung else "abort"}, "_in": short})
-            start += done + 1
-        else:
-            start += done
+        if status == "done":
             if done < len(chunk):
                 raise verif.ToolError("engine stopped early without failing")
-        part += 1
+            start += done
+            continue
+        case = cases[start + done]
+        if status == "hung":
+            one, st1 = engine_once(ctx, vh, [case], "%s-confirm-%d" % (tag, part), opts, STALL_S)
+            if st1 == "done":
+                one[0]["i"] = start + done
+                one[0]["_in"] = case
+                results.append(one[0])      # it was the machine, not the code
+                start += done + 1
+                continue
+            status = st1 if st1 != "done" else status
+        short = {k: (v if k != "text" or len(v) < 2000 else v[:300] + "...") for k, v in case.items()}
+        deep = case.get("fam") == "nest" and case["cell"]["depth"] >= 4096
+        if status == "hung":
+            key = "C27:no-return:" + klass(case)
+            msg = "no result after %d s (alone, twice): the front end did not return on this %d-byte text" % (STALL_S, len(case["text"]))
+        else:
+            _, rc, last = status.split(":", 2)
+            key = "C27:abort:deep-nesting" if deep else "C27:abort:" + klass(case)
+            msg = "process aborted (status %s: %s) on this %d-byte text" % (rc, last, len(case["text"]))
+        results.append({"i": start + done, "ok": False, "step": -1, "key": key, "msg": msg,
+                        "obs": {"parse": "hang" if status == "hung" else "abort"}, "_in": short})
+        start += done + 1
     ctx.log("vh-vmtable %s: %d cases, %d results, %d failing, %d engine runs, %.1fs" % (
         tag, len(cases), len(results), sum(1 for r in results if not r.get("ok")), part, time.time() - t0))
     return results
@@ -239,7 +265,7 @@ def run(ctx):
     r2 = ctx.tlc("PolicyFront", "MC_PolicyFront_repo_thorough.cfg" if ctx.thorough else "MC_PolicyFront_repo.cfg",
                  timeout=1500, env=env, coverage=False)
     cells += r2.replays
-    sim_n = max(1, (400 if ctx.thorough else 8) // ctx.tlc_workers)
+    sim_n = max(1, (96 if ctx.thorough else 8) // ctx.tlc_workers)
     r3 = ctx.tlc("PolicyFront", "MC_PolicyFront_sim.cfg", simulate=sim_n, depth=5, timeout=900,
                  coverage=False, env=env)
     seen = set()
